@@ -436,6 +436,10 @@ func rndKind(rng *rand.Rand, maxLen int) []string {
 	p := make([]string, n)
 	for i := range p {
 		p[i] = rmSegs[rng.Intn(len(rmSegs))]
+		// through the Go API a kind segment may itself contain the separator: it is ONE segment
+		if rng.Intn(10) == 0 {
+			p[i] = p[i] + "." + rmSegs[rng.Intn(len(rmSegs))]
+		}
 	}
 	return p
 }
@@ -584,6 +588,8 @@ func directedRMCases() []*rmCase {
 			[]rmEvent{{Name: "E1", Kind: []string{"a", "b"}}}),
 		mk("same-name-other-kind", []rmRule{{Name: "r1", Kinds: [][]string{{"a", "c"}}}},
 			[]rmEvent{{Name: "E2", Kind: []string{"b", "b"}}, {Name: "E2", Kind: []string{"a", "c"}}}),
+		mk("dotted-segment-vs-two-segments", []rmRule{{Name: "r1", Kinds: [][]string{{"a", "*", "c"}}}},
+			[]rmEvent{{Name: "E1", Kind: []string{"a", "b.c"}}, {Name: "E2", Kind: []string{"a", "b", "c"}}}),
 		mk("duplicate-pattern", []rmRule{{Name: "r1", Kinds: [][]string{{"a"}, {"a"}}}},
 			[]rmEvent{{Name: "E1", Kind: []string{"a"}}}),
 		mk("container-event-value", []rmRule{{Name: "r1", Kinds: [][]string{{"a"}}, HasState: true, State: []rmMatcher{{K: "k1", T: "num", N: 1, Body: []string{}}}}},
